@@ -33,6 +33,14 @@ func (e *Engine) nondet(label string, idx *Term, s Sort) *Term {
 	return Var(name, s)
 }
 
+// poolStr: message pool of zzStrID; index 0 is the empty string.
+func poolStr(k int64) string {
+	if k == 0 {
+		return ""
+	}
+	return fmt.Sprintf("zzmsg%d", k)
+}
+
 func concStr(v Value) string {
 	s, ok := v.(*StrV)
 	if !ok || !s.conc {
@@ -238,7 +246,7 @@ func (e *Engine) intrinsic(st *State, fn *ssa.Function, name string, args []Valu
 			st.g = And(st.g, ULt(v, BVConst(n, 64)))
 			var id *Term
 			for k := n - 1; k >= 0; k-- {
-				kid := internStr(fmt.Sprintf("zzmsg%d", k))
+				kid := internStr(poolStr(k))
 				if id == nil {
 					id = kid
 				} else {
